@@ -184,6 +184,16 @@ def memoLoadUnresolvedIdent {A C V} [DecidableEq A] (f : A → C → V)
       | some v => (some v, cache)
       | none => (some (f args file.content), (⟨name, args, id⟩, f args file.content) :: cache)
 
+/-- an aliasing counter-model (seeded defect C20-5): `memoLoad` returns a *value*; here the caller receives
+the cached object itself and scales it in place with `g` (e.g. `photon_array *= …`), so the cache entry of
+that key changes too -/
+def memoLoadAliased {A C V} [DecidableEq A] (f : A → C → V) (g : V → V)
+    (cache : Cache A V) (fs : FS C) (name rpath : String) (args : A) : Option V × Cache A V :=
+  match memoLoad f (fun c => c) cache fs name rpath args with
+  | (some v, c) =>
+    (some (g v), c.map (fun e => if e.1.name = name ∧ e.1.args = args then (e.1, g e.2) else e))
+  | (none, c) => (none, c)
+
 /-- events of one process's history -/
 inductive Ev (A C : Type)
   | write (path : String) (content : C) (statable : Bool)   -- (re)write a file (absolute path)
